@@ -4,7 +4,8 @@ import PoxModel.Proofs.SendPath
 Part A (`run`): switch-side IOWorker, every sequence of `send` / `send_fast` / loop iterations and every script of
 socket outcomes.  Part B (`crun`): controller connection + deferred sender, every interleaving of the cooperative
 thread's `Connection.send` steps, the sender thread's flush steps and the environment (other connections), every
-script of socket outcomes, every PIPE_BUF. -/
+script of socket outcomes, every PIPE_BUF.  Part C (`mrun`): several connections sharing the one deferred sender — every
+connection's view of a common history is a Part-B run, so the Part-B theorems hold per connection (`multi_conn`). -/
 namespace Pox.C20
 open Pox.SendPath
 
@@ -137,7 +138,7 @@ theorem after_fatal_step (s s' : Ctl) (a : Act) (h : CInv s) (hd : s.disc = true
     · cases hs
     · split at hs
       · cases hs; exact ⟨rfl, hd⟩
-      · simp only [hd] at hs; cases hs; exact ⟨rfl, rfl⟩
+      · cases hf : s.fatal <;> (simp only [hd, hf, Bool.false_eq_true, if_true, if_false] at hs; cases hs; exact ⟨rfl, rfl⟩)
   | senderFinish =>
     simp only [cstep] at hs
     split at hs
@@ -153,9 +154,20 @@ theorem after_fatal_step (s s' : Ctl) (a : Act) (h : CInv s) (hd : s.disc = true
     split at hs
     · cases hs
     · split at hs <;> (cases hs; exact ⟨rfl, hd⟩)
+  | envDisc => simp only [cstep] at hs; cases hs; exact ⟨rfl, hd⟩
+  | coopDisc =>
+    simp only [cstep] at hs
+    split at hs
+    · cases hs
+    · cases hs; exact ⟨rfl, rfl⟩
+  | senderPurge =>
+    simp only [cstep] at hs
+    split at hs
+    · cases hs; exact ⟨rfl, hd⟩
+    · cases hs
 
-/-- **ctl_after_fatal**: once a fatal socket error has disconnected the connection, no byte is accepted by that socket
-in any continuation of any interleaving. -/
+/-- **ctl_after_fatal**: once the connection is marked disconnected (by a fatal socket error, or from the cooperative
+side), no byte is accepted by that socket in any continuation of any interleaving. -/
 theorem ctl_after_fatal (acts : List Act) : ∀ (s : Ctl), CInv s → s.disc = true →
     (crun s acts).accepted = s.accepted ∧ (crun s acts).disc = true := by
   induction acts with
@@ -170,15 +182,36 @@ theorem ctl_after_fatal (acts : List Act) : ∀ (s : Ctl), CInv s → s.disc = t
       obtain ⟨h1, h2⟩ := ih s' (cstep_inv s s' a h hs) hd'
       exact ⟨by simpa [ha] using h1, by simpa using h2⟩
 
-/-- **ctl_no_attempt_after_fatal**: the full reading — in every interleaving (raced `Connection.send`s included), for
-every script of socket outcomes, no `sock.send` call at all is *attempted* on the socket after the connection was
-marked disconnected, and a disconnected connection has nothing left in the deferred queue.  (Holds since repair C20-R1:
-`DeferredSender.send` tests `con.disconnected` under the lock.) -/
+/-- **ctl_no_attempt_after_fatal**: the full reading — in every interleaving (raced `Connection.send`s and disconnects
+from the cooperative side included), for every script of socket outcomes, no `sock.send` call at all is *attempted* on
+the socket after a fatal socket error, the connection is then marked disconnected and nothing is left for it in the
+deferred queue.  (Holds since repair C20-R1: `DeferredSender.send` tests `con.disconnected` under the lock.) -/
 theorem ctl_no_attempt_after_fatal (pb : Nat) (acts : List Act) :
     (crun { pb := pb } acts).offeredAfterDisc = 0 ∧
-    ((crun { pb := pb } acts).disc = true → (crun { pb := pb } acts).pending = []) :=
+    ((crun { pb := pb } acts).fatal = true → (crun { pb := pb } acts).pending = [] ∧ (crun { pb := pb } acts).disc = true) :=
+  let h := crun_inv acts { pb := pb } (cinit_inv pb)
   let n := crun_noatt acts { pb := pb } (cinit_inv pb) (cinit_noatt pb)
-  ⟨n.quiet, n.empty⟩
+  ⟨n.quiet, fun hf => ⟨n.empty hf, h.fat hf⟩⟩
+
+/-- **ctl_env_disc**: another connection being disconnected or closed (`Connection.disconnect` does not touch the deferred
+sender) changes nothing this connection can see: the action is always enabled and leaves the state as it is. -/
+theorem ctl_env_disc (s : Ctl) : cstep s .envDisc = some s := rfl
+
+/-- **multi_conn**: several connections sharing the one deferred sender.  In every history of whole operations on `n`
+connections — sends, sender iterations reporting any subset writable, disconnects and closes of any connection at any
+point — every connection's state is a Part-B run of its own actions and of environment actions for what the others did;
+hence, per connection: the socket took a prefix of what was queued, while the connection is up nothing is lost, duplicated
+or reordered, and nothing is attempted after a fatal error. -/
+theorem multi_conn (pb n : Nat) (ops : List MOp) : ∀ v ∈ mrun pb n ops,
+    v.st = crun { pb := pb } v.trace ∧
+    (∃ t, v.st.accepted ++ t = v.st.queued) ∧
+    (v.st.disc = false → v.st.accepted ++ v.st.pending.flatten ++ inflight v.st = v.st.queued) ∧
+    v.st.offeredAfterDisc = 0 ∧ (v.st.fatal = true → v.st.pending = [] ∧ v.st.disc = true) := by
+  intro v hv
+  have hok : v.st = crun { pb := pb } v.trace := mrun_ok pb n ops v hv
+  refine ⟨hok, ?_⟩
+  rw [hok]
+  exact ⟨(ctl_stream pb v.trace).2, (ctl_stream pb v.trace).1, ctl_no_attempt_after_fatal pb v.trace⟩
 
 /-- the interleaving that used to defeat it (finding C20-R1, now repaired): a `Connection.send` that passed its
 `disconnected` test before the sender thread hit the fatal error.  Kept as a regression witness: it is replayed on the
@@ -190,7 +223,27 @@ def raceActs : List Act :=
    .coopEnq,                                             -- …second message arrives at the deferred sender: dropped
    .senderBegin, .senderSend (.accept 1)]                -- nothing pending: the sender does not touch the socket
 example : (crun { pb := 512 } raceActs).offeredAfterDisc = 0 ∧ (crun { pb := 512 } raceActs).pending = [] ∧
-    (crun { pb := 512 } raceActs).disc = true := by decide
+    (crun { pb := 512 } raceActs).disc = true ∧ (crun { pb := 512 } raceActs).fatal = true := by decide
+
+/-- a connection disconnected from the cooperative side keeps what is queued for it until the sender thread meets the
+    dead socket (one refused write, which is that socket's first and only fatal error) or forgets it (`senderPurge`) -/
+example : (crun { pb := 512 } [.coopCheck [1,2], .coopGo (.accept 1), .coopEnq, .coopDisc]).pending = [[2]] ∧
+    (crun { pb := 512 } [.coopCheck [1,2], .coopGo (.accept 1), .coopEnq, .coopDisc, .senderBegin, .senderSend (.accept 5)]).fatal = true ∧
+    (crun { pb := 512 } [.coopCheck [1,2], .coopGo (.accept 1), .coopEnq, .coopDisc, .senderBegin, .senderSend (.accept 5)]).accepted = [1] ∧
+    (crun { pb := 512 } [.coopCheck [1,2], .coopGo (.accept 1), .coopEnq, .coopDisc, .senderPurge]).pending = [] ∧
+    (crun { pb := 512 } [.coopCheck [1,2], .coopGo (.accept 1), .coopEnq, .coopDisc, .senderPurge]).fatal = false := by decide
+
+/-- two connections: 0 has a backlog, 1 (nothing queued) is closed, then 0 sends again — the second message goes behind
+    the backlog (`sending` is still set: closing connection 1 changed nothing), and one sender pass delivers both in order -/
+def twoConns : List MOp :=
+  [.send 1 [9] (.accept 5), .send 0 [1,2,3] (.accept 1), .disc 1 true, .send 0 [4,5] (.accept 5), .flush [(0, [])]]
+example : (mrun 2 2 twoConns).map (fun v => (v.st.accepted, v.st.pending, v.st.disc, v.st.sending)) =
+    [([1,2,3,4,5], [], false, false), ([9], [], true, false)] := by decide
+/-- a connection closed WITH a backlog: the sender's select refuses its socket, the sender forgets its queue (C20-3) and
+    serves the other connection in the same iteration -/
+example : (mrun 4 2 [.send 0 [1,2,3] (.accept 1), .send 1 [7,8] .again, .disc 1 true, .flush [(0, []), (1, [])]]).map
+    (fun v => (v.st.accepted, v.st.pending, v.st.disc, v.st.sending, v.st.offeredAfterDisc)) =
+    [([1,2,3], [], false, false, 0), ([], [], true, false, 0)] := by decide
 
 /-! non-vacuity -/
 example : (run [.send [1,2,3], .pump (.accept 2), .sendFast [4] .again, .pump .again, .pump (.accept 9)]).accepted
